@@ -486,7 +486,7 @@ fn eval(sh: &mut Shard, e: &Entry, idx: u64, mkind: &str, input: &[u8], seen: &m
     false
 }
 
-fn case_binary(sh: &mut Shard, reg: &[Entry], idx: u64, sub: u64, r: &mut Rng, seen: &mut HashSet<(String, String)>) {
+fn case_binary(sh: &mut Shard, reg: &[Entry], idx: u64, sub: u64, r: &mut Rng, seen: &mut HashSet<(String, String)>, light: bool) {
     let e = &reg[(sub % reg.len() as u64) as usize];
     let (b, rtres) = (e.gen)(r);
     sh.evaluations += 1;
@@ -528,16 +528,16 @@ fn case_binary(sh: &mut Shard, reg: &[Entry], idx: u64, sub: u64, r: &mut Rng, s
     let (other, _) = (e.gen)(r);
     let n = b.len();
     eval(sh, e, idx, "valid", &b, seen);
-    for off in 0..n.min(64) {
+    for off in 0..n.min(if light { 16 } else { 64 }) {
         eval(sh, e, idx, "truncate_at", &b[..off], seen);
     }
     if n > 0 {
         let mut m = b.clone();
-        for t in 0..=255u8 {
+        for t in (0..=255u8).step_by(if light { 17 } else { 1 }) {
             m[0] = t;
             eval(sh, e, idx, "tag_sweep", &m, seen);
         }
-        for _ in 0..16 {
+        for _ in 0..(if light { 4 } else { 16 }) {
             let w = *r.pick(&[1usize, 2, 4, 8]);
             if w > n {
                 continue;
@@ -555,7 +555,7 @@ fn case_binary(sh: &mut Shard, reg: &[Entry], idx: u64, sub: u64, r: &mut Rng, s
         }
     }
     let mut changed_ok = false;
-    for _ in 0..200 {
+    for _ in 0..(if light { 24 } else { 200 }) {
         let (k, m) = util::mutate(r, &b, &other);
         let before = sh.get("bin.decode_ok");
         eval(sh, e, idx, k, &m, seen);
@@ -1236,11 +1236,19 @@ pub fn run(ctx: &ChildCtx, sh: &mut Shard) {
         }
     }
     let mut seen = HashSet::new();
+    // Under Miri (unsafe blocks of impls.rs / traits.rs: MaybeUninit arrays, from_raw_parts_mut read
+    // buffers, transmuted chunks, AttributeValue::new_unchecked) only the binary cases run, every type of
+    // the registry in turn, with fewer hostile inputs per case.
+    let miri = ctx.san == "miri";
     for idx in ctx.indices() {
         ctx.begin_case(idx);
         let mut r = ctx.case_rng(idx);
+        if miri {
+            case_binary(sh, &reg, idx, idx * 16 + ctx.shard as u64, &mut r, &mut seen, true);
+            continue;
+        }
         match idx % 4 {
-            0 | 1 => case_binary(sh, &reg, idx, idx / 2 + ctx.shard as u64 * 5, &mut r, &mut seen),
+            0 | 1 => case_binary(sh, &reg, idx, idx / 2 + ctx.shard as u64 * 5, &mut r, &mut seen, false),
             2 => {
                 for _ in 0..8 {
                     case_ordered(sh, idx, &mut r);
